@@ -43,6 +43,7 @@ type memTransport struct {
 	poison     int  // fill the unused part of the receive buffer with this byte (-1: leave)
 	txCount    int
 	unscripted int
+	callTx     int // datagrams transmitted during the current call
 	txfails    int
 	blockLost  bool // a lost reply blocks until the attempt's context is done, like a real socket read
 	closed     bool
@@ -99,6 +100,12 @@ func (t *memTransport) Send(ctx context.Context, b []byte) ([]byte, error) {
 // sock / late). It returns the reaction (empty when the script has none left).
 func (t *memTransport) onTx(b []byte) M {
 	t.txCount++
+	t.callTx++
+	if t.callTx == 3000 && t.cancel != nil {
+		// a call that is still transmitting after this many datagrams is cut short (its context cancelled):
+		// the trace stays small enough to validate, and a bound on the requests (exp.maxreqs) is still judged
+		t.cancel()
+	}
 	t.e.req = append([]byte(nil), b...)
 	ev := M{"ev": "tx", "raw": toInts(b), "n": t.txCount}
 	if t.inSess && t.recipes != nil {
@@ -789,6 +796,7 @@ func (r *runner) run() {
 				r.mt.cancel = nil // real time: only the context's own deadline ends a call
 			}
 			r.mt.unscripted = 0
+			r.mt.callTx = 0
 			r.mt.txfails = 0
 			call := M{"ev": "call", "api": s["api"]}
 			for _, k := range []string{"cmd", "method", "label", "target", "args", "margs", "exp"} {
